@@ -27,13 +27,14 @@ class Case(object):
     args     JSON-able tuple: everything impl()/oracle() need (goes into the replay file)
     platform True for ops that never call netaddr (modelled runtime / platform)
     """
-    __slots__ = ('line', 'tag', 'args', 'platform')
+    __slots__ = ('line', 'tag', 'args', 'platform', 'extra')
 
     def __init__(self, line, tag, args, platform=False):
         self.line = line
         self.tag = tag
         self.args = args
         self.platform = platform
+        self.extra = None          # scratch for impl() -> oracle() hand-over (not serialised)
 
     def to_json(self):
         return {'line': self.line, 'tag': self.tag, 'args': jsonable(self.args), 'platform': self.platform}
